@@ -1188,7 +1188,7 @@ impl<'a> TokenBasedLuaGenerator<'a> {
 
         if let Some(variadic_argument_type) = function_type.get_variadic_argument_type() {
             if argument_len > 0 {
-                if let Some(comma) = tokens.commas.get(argument_len) {
+                if let Some(comma) = tokens.commas.get(argument_len - 1) {
                     self.write_token(comma);
                 } else {
                     self.write_symbol(",");
